@@ -1,4 +1,6 @@
 import Drand.Beacon.Stream
+import Gen.Consts
+import Gen.Callback
 namespace Drand.Driver.StreamD
 open Drand Drand.Store Drand.Beacon.Stream
 
@@ -12,6 +14,10 @@ def streamBeacon (chained : Bool) (r : Nat) : Beacon :=
 
 structure StreamDrv where
   handover : Handover
+  /-- `some CallbackWorkerQueue` when the tree's callbackStore ends a stream whose queue is full (regenerated fact) -/
+  cap : Option Nat := if Gen.callbackOverflowEndsConsumer then some Gen.callbackWorkerQueue else none
+  /-- SyncChain deregisters with the remover of its own registration (regenerated fact) -/
+  ownOnly : Bool := Gen.syncChainRemovesOwnOnly
   backend : String
   chained : Bool := true
   net : Option Net := none
@@ -23,6 +29,10 @@ structure StreamDrv where
 
 def streamDrvInit (backend variant : String) : StreamDrv :=
   { handover := if variant = "tracked" then .tracked else .asIs, backend := backend }
+
+/-- a step of stream `sid` with its effect on the callback table, as the tree under test does it -/
+def StreamDrv.own (d : StreamDrv) (n : Net) (sid : String) (ev : Own) : Net :=
+  if d.ownOnly then n.ownR d.handover sid ev else n.own d.handover sid ev
 
 def emptyStore (backend : String) : Store :=
   if backend.startsWith "mem" then .mem ⟨((backend.drop 3).toString.toNat?).getD 10, []⟩ else .bolt []
@@ -62,7 +72,9 @@ def streamStep (d : StreamDrv) (f : List String) : StreamDrv × String :=
   | _, none => (d, "bad-state")
   | ["put"], some n =>
     let r := n.store.head + 1
-    ({ d with net := some (n.put (streamBeacon d.chained r)) }, s!"ok {r}")
+    ({ d with net := some (match d.cap with
+                            | some cap => n.putR cap (streamBeacon d.chained r)
+                            | none => n.put (streamBeacon d.chained r)) }, s!"ok {r}")
   | ["wait"], some _ => (d, "done")
   | ["head"], some n => (d, n.store.last.show)
   | ["get", r], some n =>
@@ -96,11 +108,11 @@ def streamStep (d : StreamDrv) (f : List String) : StreamDrv × String :=
           | _ => (d, "bad-state")
         else
         match e.s.phase with
-        | .idle => report (n.own d.handover sid .start) (fun s => ended s "started")
-        | .started => report (n.own d.handover sid .scanOpen) (fun s => ended s "scan-end")
-        | .scanning _ => report (n.own d.handover sid .scanNext) (fun s => ended s "scan-end")
+        | .idle => report (d.own n sid .start) (fun s => ended s "started")
+        | .started => report (d.own n sid .scanOpen) (fun s => ended s "scan-end")
+        | .scanning _ => report (d.own n sid .scanNext) (fun s => ended s "scan-end")
         | .scanned =>
-          let n' := n.own d.handover sid .register
+          let n' := d.own n sid .register
           -- AddCallback itself always succeeds; a corrected hand-over that then fails to catch up returns afterwards
           match findStream n' sid with
           | some e' =>
@@ -111,7 +123,7 @@ def streamStep (d : StreamDrv) (f : List String) : StreamDrv × String :=
         | _ => (d, "bad-state")
       else if op = "failstep" then
         match e.s.phase with
-        | .scanning _ => report (n.own d.handover sid .sendFail) (fun s => ended s "bad-state")
+        | .scanning _ => report (d.own n sid .sendFail) (fun s => ended s "bad-state")
         | _ => (d, "bad-state")
       else if op = "deliver" then
         match e.s.phase with
@@ -121,7 +133,7 @@ def streamStep (d : StreamDrv) (f : List String) : StreamDrv × String :=
       else if op = "faildeliver" then
         match e.s.phase with
         | .live =>
-          let n' := n.own d.handover sid .sendFail
+          let n' := d.own n sid .sendFail
           match findStream n' sid with
           | none => (d, "bad-state")
           | some e' =>
@@ -134,7 +146,7 @@ def streamStep (d : StreamDrv) (f : List String) : StreamDrv × String :=
         match e.s.phase with
         | .done _ => (d, "bad-state")
         | _ =>
-          let n' := n.own d.handover sid .cancel
+          let n' := d.own n sid .cancel
           ({ d with net := some n' }, match findStream n' sid with | some e' => ended e'.s "bad-state" | none => "bad-state")
       else if op = "sent" then
         let l := e.s.sent.take k
@@ -169,7 +181,7 @@ def normalize (d : StreamDrv) : StreamDrv :=
           match e.s.phase, e.s.queue with
           | .live, .close :: _ =>
             if ackedOf d e.sid < e.s.sent.length then d
-            else { d with net := some (n.own d.handover e.sid .deliver), unreported := e.sid :: d.unreported }
+            else { d with net := some (d.own n e.sid .deliver), unreported := e.sid :: d.unreported }
           | _, _ => d) d
 
 def streamStep1 (d : StreamDrv) (f : List String) : StreamDrv × String :=
